@@ -79,7 +79,7 @@ def _ks(ks: Any) -> str:
     return "|".join(ks) if len(ks) <= 3 else f"{len(ks)} kinds"
 
 
-def setitem_obligations(ctx: Ctx, pid: str) -> None:
+def setitem_obligations(ctx: Ctx, pid: str, exact: bool = False) -> None:
     from ..interp import Config, Interp
     I = Interp(ctx.prog)
     fn = ctx.prog.function(CORE, "TagAttrDict.__setitem__")
@@ -116,6 +116,12 @@ def setitem_obligations(ctx: Ctx, pid: str) -> None:
                           f"value kind {_ks(v.kinds)} stored as {short(val)}",
                           f"item assignment stores {short(val)} for a value of kind {_ks(v.kinds)} without normalising it",
                           witness="tag.attrs['x'] = None")
+                if exact and ok and v.kinds <= {"STR", "JSXEXPR"}:
+                    # item assignment *replaces*: a plain string is stored as that string (no merge with, or marking taken from, the old value)
+                    same = vc.kind == "plain" and all(f.kind in ("OF", "OP") and not (f.c or ()) for f in vc.frags) and len(vc.frags) <= 1
+                    ctx.check(same, f"{pid}.setitem", "item assignment stores a plain string as given", where, f"str stored as {short(val)}",
+                              f"`attrs[name] = 'text'` stores {short(val)}, not the string that was assigned: what is read back (and what has_class / remove_class "
+                              f"split into tokens) differs from what was written", witness="t = div(class_=HTML('a')); t.attrs['class'] = 'x&y'; t.attrs['class']")
     ctx.min_count(f"{pid} __setitem__ stores", n, 2)
 
 
